@@ -24,6 +24,7 @@ def run(rep, idx, tier):
     # the window list the decoder decodes with is the map's current one (no stale memo in the queries it uses)
     from .c02 import query_coherence
     query_coherence(rep, idx, rule="C06.1", only=("window_patterns", "windows", "get", "overlaps", "items"))
+    glue.pairwise_reductions(rep, "C06.3", idx, "csr/bus.py")
     if not require_supported(rep, "C06.1", c):
         return
     r = glue.decoder_roles(rep, "C06.1", c, "self.bus.addr")
